@@ -4,22 +4,18 @@ C03 — Unifying scalars, basic types and bounds is exact set intersection.
 Objects (Model/Scalar.lean, Spec/Scalar.lean):
   * `evalS re cs`  — the model of the evaluator on the conjunction `c₁ & … & cₙ`
                      (`insertValueConjunct` / `SimplifyBounds` / `updateNodeType` / `validateValue` /
-                     `getValidators`, transcribed), result `bottom | atom a | residual …`;
+                     `getValidators`, transcribed), result `bottom | atom a | residual kind bounds`;
   * `sat re a c`   — the specification: the atom `a` satisfies the conjunct `c`;
                      `Sat re cs a` = it satisfies every conjunct;
   * `accepts r a`  — `r` is the atom `a` (same kind, same exact value);
   * `re`           — an arbitrary regular-expression oracle.
 
 Every theorem is for EVERY list of conjuncts (any length, any order, the atom at any position),
-every atom and every oracle.
-
-One region is excluded by hypothesis (`Regular cs`): a bound whose operand has a non-zero
-fraction and an integer part needing more than 34 digits.  There `internal.BaseContext.Ceil/Floor`
-round (precision 34) and `SimplifyBounds` ignores the Inexact condition; the full statements are
-FALSE of model and code alike — `C03_accept_false`, `C03_bottom_sound_false` prove the negations on
-a witness that the harness replays on the implementation (known finding
-`int-bound-fraction-over-34-digits`).  `Regular` also asks that a basic type has a non-empty kind
-mask, which every type CUE source can express has.
+every atom and every oracle, WITHOUT side conditions.  (Before repository commit 2ca10eb the
+statements were false for bound operands with a fraction and an integer part of more than 34
+digits — `BaseContext.Ceil/Floor` rounded and the condition was dropped; the model now
+transcribes the repaired code, which skips the simplification when Ceil/Floor is Inexact, and
+the former witness is kept as a regression example.)
 
 Only statements live here; proofs are in Proofs/{Dec,Scalar,ScalarNode}.lean.
 -/
@@ -29,112 +25,99 @@ open CueVerif CueVerif.Scalar
 
 /-! ### an atom unifies with the expression exactly when it satisfies every conjunct -/
 
-/-- FULL statement (no side condition). -/
-def C03_accept_stmt : Prop :=
-  ∀ (re : Bytes → Bytes → Bool) (cs : List Constraint) (a : Atom), Constraint.atom a ∈ cs →
-    (accepts (evalS re cs) a ↔ Sat re cs a)
-
 /-- For every conjunction that contains the atom `a` as one conjunct — at any position — the
 evaluation succeeds with (an atom equal to) `a` exactly when `a` satisfies every conjunct. -/
-theorem C03_accept_partial (re : Bytes → Bytes → Bool) (cs : List Constraint) (a : Atom)
-    (hreg : Regular cs) (ha : Constraint.atom a ∈ cs) :
+theorem C03_accept (re : Bytes → Bytes → Bool) (cs : List Constraint) (a : Atom)
+    (ha : Constraint.atom a ∈ cs) :
     accepts (evalS re cs) a ↔ Sat re cs a :=
-  accept_iff re cs a hreg ha
+  accept_iff re cs a ha
 
 /-- "... and the result is then that atom". -/
 theorem C03_result (re : Bytes → Bytes → Bool) (cs : List Constraint) (a : Atom)
-    (hreg : Regular cs) (ha : Constraint.atom a ∈ cs) (hsat : Sat re cs a) :
+    (ha : Constraint.atom a ∈ cs) (hsat : Sat re cs a) :
     ∃ b, evalS re cs = .atom b ∧ b.same a = true :=
-  (accept_iff re cs a hreg ha).2 hsat
+  (accept_iff re cs a ha).2 hsat
 
 /-- Never accepted wrongly: a successful unification means every conjunct is satisfied. -/
 theorem C03_accept_sound (re : Bytes → Bytes → Bool) (cs : List Constraint) (a b : Atom)
-    (hreg : Regular cs) (ha : Constraint.atom a ∈ cs) (h : evalS re cs = .atom b) (hb : b.same a = true) :
+    (ha : Constraint.atom a ∈ cs) (h : evalS re cs = .atom b) (hb : b.same a = true) :
     ∀ c ∈ cs, sat re a c = true :=
-  (accept_iff re cs a hreg ha).1 ⟨b, h, hb⟩
+  (accept_iff re cs a ha).1 ⟨b, h, hb⟩
 
--- non-vacuity: a regular conjunction with a satisfying atom in the middle
-example : Regular [.type Kind.int, .atom (.int 3), .bound ⟨.ge, .float ⟨25, -1⟩⟩, .bound ⟨.lt, .int 4⟩] ∧
-    Sat (fun _ _ => false) [.type Kind.int, .atom (.int 3), .bound ⟨.ge, .float ⟨25, -1⟩⟩, .bound ⟨.lt, .int 4⟩] (.int 3) := by
-  unfold Regular Sat; decide
+-- non-vacuity: a conjunction with a satisfying atom in the middle
+example : Sat (fun _ _ => false)
+    [.type .int, .atom (.int 3), .bound ⟨.ge, .float ⟨25, -1⟩⟩, .bound ⟨.lt, .int 4⟩] (.int 3) := by
+  unfold Sat; decide
 
-/-- the witness of the defect: `int & >=1234567890123456789012345678901234567.5 &
-<=1234567890123456789012345678901234569 & 1234567890123456789012345678901234568` -/
-def witness : List Constraint :=
-  [.type Kind.int,
+/-- the witness of the defect repaired by 2ca10eb: `int & >=1234567890123456789012345678901234567.5
+& <=1234567890123456789012345678901234569 & 1234567890123456789012345678901234568` -/
+def formerWitness : List Constraint :=
+  [.type .int,
    .bound ⟨.ge, .float ⟨12345678901234567890123456789012345675, -1⟩⟩,
    .bound ⟨.le, .int 1234567890123456789012345678901234569⟩,
    .atom (.int 1234567890123456789012345678901234568)]
 
-theorem witness_bottom : evalS (fun _ _ => false) witness = .bottom := by decide +kernel
-
-theorem witness_sat : Sat (fun _ _ => false) witness (.int 1234567890123456789012345678901234568) := by
-  unfold Sat witness; decide +kernel
-
-/-- The full statement is false (of the model, and — replayed by the harness — of the code). -/
-theorem C03_accept_false : ¬ C03_accept_stmt := by
-  intro h
-  have := (h (fun _ _ => false) witness (.int 1234567890123456789012345678901234568)
-    (by unfold witness; decide)).2 witness_sat
-  obtain ⟨b, hb, _⟩ := this
-  rw [witness_bottom] at hb; cases hb
+/-- regression example (a test, not the property): the former witness is accepted now -/
+theorem formerWitness_accepted :
+    evalS (fun _ _ => false) formerWitness = .atom (.int 1234567890123456789012345678901234568) := by
+  decide +kernel
 
 /-! ### bottom only if no atom satisfies the expression -/
 
-def C03_bottom_sound_stmt : Prop :=
-  ∀ (re : Bytes → Bytes → Bool) (cs : List Constraint), evalS re cs = .bottom → ∀ a, ¬ Sat re cs a
-
 /-- The expression evaluates to bottom only if no atom satisfies every conjunct. -/
-theorem C03_bottom_sound_partial (re : Bytes → Bytes → Bool) (cs : List Constraint)
-    (hreg : Regular cs) (h : evalS re cs = .bottom) : ∀ a, ¬ Sat re cs a :=
-  bottom_sound re cs hreg h
+theorem C03_bottom_sound (re : Bytes → Bytes → Bool) (cs : List Constraint)
+    (h : evalS re cs = .bottom) : ∀ a, ¬ Sat re cs a :=
+  bottom_sound re cs h
 
-theorem C03_bottom_sound_false : ¬ C03_bottom_sound_stmt := fun h =>
-  h (fun _ _ => false) witness witness_bottom _ witness_sat
-
--- non-vacuity: a regular conjunction that is bottom (`int & >3.4 & <3.6`)
-example : Regular [.type Kind.int, .bound ⟨.gt, .float ⟨34, -1⟩⟩, .bound ⟨.lt, .float ⟨36, -1⟩⟩] ∧
-    evalS (fun _ _ => false) [.type Kind.int, .bound ⟨.gt, .float ⟨34, -1⟩⟩, .bound ⟨.lt, .float ⟨36, -1⟩⟩] = .bottom := by
-  unfold Regular; decide
+-- non-vacuity: a conjunction that is bottom (`int & >3.4 & <3.6`)
+example : evalS (fun _ _ => false)
+    [.type .int, .bound ⟨.gt, .float ⟨34, -1⟩⟩, .bound ⟨.lt, .float ⟨36, -1⟩⟩] = .bottom := by
+  decide
 
 /-! ### never a different atom -/
 
-/-- OPEN without the side condition (believed true: an atom result always stems from an atom
-conjunct). -/
-def C03_pinned_stmt : Prop :=
-  ∀ (re : Bytes → Bytes → Bool) (cs : List Constraint) (b : Atom), evalS re cs = .atom b →
-    Sat re cs b ∧ ∀ a, Sat re cs a → a.same b = true
-
 /-- When the evaluator reports an atom, that atom satisfies every conjunct and it is the only
 one that does (up to `1.0 = 1.00`). -/
-theorem C03_pinned_partial (re : Bytes → Bytes → Bool) (cs : List Constraint) (hreg : Regular cs)
+theorem C03_pinned (re : Bytes → Bytes → Bool) (cs : List Constraint)
     (b : Atom) (h : evalS re cs = .atom b) :
     Sat re cs b ∧ ∀ a, Sat re cs a → a.same b = true :=
-  pinned re cs hreg b h
+  pinned re cs b h
 
 example : evalS (fun _ _ => false) [.bound ⟨.le, .float ⟨15, -1⟩⟩, .atom (.float ⟨10, -1⟩)] = .atom (.float ⟨10, -1⟩) := by
   decide
+
+/-! ### a non-concrete result is exact too -/
+
+/-- When the result is not concrete (`getValidators`: kind + surviving bounds) it admits exactly
+the atoms that satisfy every conjunct: nothing is lost by tightening, de-duplication or the
+pruning of a `!=` that another bound already excludes. -/
+theorem C03_residual_exact (re : Bytes → Bytes → Bool) (cs : List Constraint) (k : Kind)
+    (bs : List Bound) (h : evalS re cs = .residual k bs) (a : Atom) :
+    Sat re cs a ↔ (Kind.has k a = true ∧ ∀ b ∈ bs, satBound re a b = true) :=
+  residual_exact re cs k bs h a
+
+example : evalS (fun _ _ => false) [.bound ⟨.lt, .int 5⟩, .bound ⟨.ne, .int 7⟩, .bound ⟨.lt, .int 3⟩] =
+    .residual Kind.number [⟨.lt, .int 3⟩] := by decide
 
 /-! ### every outcome of `SimplifyBounds` is sound (the cell lemma the above rest on) -/
 
 /-- For an atom of a kind `k` allows and both bounds admit: `keepX`/`keepY` drop a bound the other
 implies, an error means the two bounds exclude each other. -/
 theorem C03_simplify_sound (re : Bytes → Bytes → Bool) (k : Kind) (x y : Bound) (v : Atom)
-    (hax : boundAdmits x v = true) (hay : boundAdmits y v = true) (hk : Kind.has k v = true)
-    (sx : x.small = true) (sy : y.small = true) :
+    (hax : boundAdmits x v = true) (hay : boundAdmits y v = true) (hk : Kind.has k v = true) :
     match simplifyBounds re k x y with
     | .keepX => boundHolds re x v = true → boundHolds re y v = true
     | .keepY => boundHolds re y v = true → boundHolds re x v = true
     | .err => ¬ (boundHolds re x v = true ∧ boundHolds re y v = true)
     | .both => True :=
-  simplify_sound re k x y v hax hay hk sx sy
+  simplify_sound re k x y v hax hay hk
 
 /-! ### int and float stay distinct kinds; comparison is by exact decimal value -/
 
 theorem C03_kinds (re : Bytes → Bytes → Bool) (n : Int) (d : Dec) :
-    sat re (.int n) (.type Kind.float) = false ∧ sat re (.float d) (.type Kind.int) = false ∧
+    sat re (.int n) (.type .float) = false ∧ sat re (.float d) (.type .int) = false ∧
     (Atom.int n).same (.float d) = false ∧ sat re (.int n) (.atom (.float d)) = false ∧
-    sat re (.int n) (.type Kind.number) = true ∧ sat re (.float d) (.type Kind.number) = true :=
+    sat re (.int n) (.type .number) = true ∧ sat re (.float d) (.type .number) = true :=
   ⟨(by decide : Nat.testBit 8 2 = false), (by decide : Nat.testBit 4 3 = false), rfl, rfl,
    (by decide : Nat.testBit 12 2 = true), (by decide : Nat.testBit 12 3 = true)⟩
 
